@@ -37,7 +37,7 @@ package check
 //@   ensures @open: result == nil ==> (bal.Account in ch.accounts)
 //@   ensures @al: (bal.Account in ch.accounts) && isAL(bal.Account) && !ch.NoCheck ==> (result == nil <==> qty(ch, bal.Account, bal.Commodity) == bal.Quantity)
 //@   ensures @nocheck: (bal.Account in ch.accounts) && ch.NoCheck ==> result == nil
-//@   ensures @other: (bal.Account in ch.accounts) && !isAL(bal.Account) ==> result == nil
+//@   ensures [C04] @other: (bal.Account in ch.accounts) && !isAL(bal.Account) ==> result == nil
 //
 // close: accepted iff the account is open and all its (asset/liability) positions are zero; on success
 // the account is no longer open and its positions are dropped; other positions are untouched.
@@ -62,3 +62,10 @@ package check
 //@   ensures result == nil
 //@   ensures dom(ch.quantities) == old(dom(ch.quantities)) && vals(ch.quantities) == old(vals(ch.quantities))
 //@   loop 1 invariant fresh(bal)
+//
+// Commutation within one kind on one day (C05): two directives of the same kind can be checked in
+// either order - the verdict is the same and, when accepted, so is the checker's state.
+//@ commute postings_commute [C05]: (*Checker).posting shared ch
+//@ commute opens_commute [C05]: (*Checker).open shared ch
+//@ commute balances_commute [C05]: (*Checker).balance shared ch
+//@ commute closes_commute [C05]: (*Checker).close shared ch
